@@ -83,7 +83,12 @@ class CharacterizeMonitor(object):
 
         def characterize(cls, record):
             cands = list(cls.__subclasses__())
-            if not isabstract(cls):
+            # the receiver is its own candidate when it is a concrete type: judged here without the library's helper
+            import inspect
+            concrete = (not inspect.isabstract(cls) and isinstance(getattr(cls, "signature", None), tuple)
+                        and getattr(cls, "cutter", NotImplemented) is not NotImplemented
+                        and not any(getattr(cls, a, None) is NotImplemented for a in dir(cls)))
+            if concrete:
                 cands.append(cls)
             ctx.count("c05_characterize_calls")
             try:
@@ -275,7 +280,8 @@ def execute(mat, ctx):
                     i = rng.randrange(len(s))
                     s = s[:i] + rng.choice("ACGT") + s[i + 1:]
             s = rot_left(s, rng.randrange(len(s)))
-            for b in (kitbase,):
+            # from the kit's family base, and now and then from the concrete type itself (which is its own candidate)
+            for b in (kitbase,) + ((src,) if j % 4 == 0 else ()):
                 try:
                     b.characterize(_record(s))   # judged by the monitor
                 except RuntimeError:
